@@ -33,6 +33,12 @@ MCView == <<convs, last>>
 
 Inv_C05 == \A c \in Live : P_C05_inv(c)
 Inv_C01 == \A c \in Live : LET A(m, md, x) == SpecA(c, m, md, x) IN \A s \in Probes : P_C01(c, s, A)
+Inv_C02 == \A c \in Live : LET A(m, md, x) == SpecA(c, m, md, x)  AP(m, md, p, id) == SpecAP(c, m, md, p, id)
+                          IN \A s \in Probes : P_C02(c, s, A, AP)
+Inv_C03 == \A c \in Live : DelimFreePrefixes(c) => LET A(m, md, x) == SpecA(c, m, md, x) IN \A s \in Probes : P_C03(c, s, A)
+Inv_C06 == \A c \in Live : LET A(m, md, x) == SpecA(c, m, md, x) IN \A s \in Probes : P_C06(c, s, A)
+Inv_C07 == \A c \in Live : LET A(m, md, x) == SpecA(c, m, md, x) IN \A s \in Probes : P_C07(c, s, A)
+Inv_C08 == \A c \in Live : LET A(m, md, x) == SpecA(c, m, md, x) IN \A s \in Probes : P_C08(c, s, A)
 \* every add step satisfies the declarative step law
 Prop_C05 == [][ (Len(hist') > Len(hist) /\ hist'[Len(hist')].k = "add") =>
                  LET op == hist'[Len(hist')] IN
